@@ -433,9 +433,12 @@ func (vc *VC) look(st *State, name string) string {
 	if !ok {
 		panic("unregistered heap var " + name)
 	}
-	vc.declare(s, sort)
-	if name == "$alloc" && st.epoch == 0 {
-		// nothing
+	if !vc.declared[s] {
+		vc.declare(s, sort)
+		if strings.HasPrefix(name, "W!") && st.epoch == 0 {
+			// nothing has been assigned at function entry
+			vc.emit(fmt.Sprintf("(assert (= %s ((as const %s) false)))", s, sort))
+		}
 	}
 	return s
 }
@@ -480,6 +483,9 @@ func (vc *VC) havocVar(st *State, name string) {
 		return
 	}
 	st.H[name] = vc.fresh(name, sort)
+	if w := "W!" + name; vc.hsort[w] != "" && !strings.HasPrefix(name, "W!") {
+		st.H[w] = vc.fresh(w, vc.hsort[w])
+	}
 }
 
 type mergeIn struct {
@@ -580,6 +586,9 @@ func (vc *VC) write(st *State, a *Addr, v string) {
 	switch a.Kind {
 	case "field", "cell":
 		vc.set(st, a.Var, sort, fmt.Sprintf("(store %s %s %s)", h, a.Ref, v))
+		if w := "W!" + a.Var; vc.hsort[w] != "" {
+			vc.set(st, w, vc.hsort[w], fmt.Sprintf("(store %s %s true)", vc.look(st, w), a.Ref))
+		}
 	case "elem":
 		vc.set(st, a.Var, sort, fmt.Sprintf("(store %s %s (store (select %s %s) %s %s))", h, a.Ref, h, a.Ref, a.Idx, v))
 	case "global":
